@@ -11,7 +11,7 @@
    make the code panic on purpose (command.rs: "a developer error"), which the model reproduces
    (Machine.poll_fut) and the automaton allows (h_bad). *)
 From Coq Require Import List NArith Bool Arith.
-From Crux Require Import Timer.Machine Timer.Spec Timer.SpecProofs Timer.MachineInv Timer.MachineProofs.
+From Crux Require Import Timer.Machine Timer.Spec Timer.SpecProofs Timer.SpecWeak Timer.MachineInv Timer.MachineProofs.
 Import ListNotations.
 
 (* ------------------------------------------------------------------------------------------ *)
@@ -25,6 +25,15 @@ Proof. exact model_ok. Qed.
 
 Theorem C18_model_accepted_one : forall k id xs, C18_ok1 k id xs (trun (new_timer k id) xs) = true.
 Proof. exact model_ok1. Qed.
+
+(* hosted under Core, where is_done of a hosted command cannot be observed (every done flag replaced
+   by "an outcome has been reported so far"): still accepted - for the model, and for every
+   accepted trace *)
+Theorem C18_done_flag_forgotten : forall xs os, C18_ok xs os = true -> C18_ok xs (weak [] xs os) = true.
+Proof. exact weak_ok. Qed.
+Theorem C18_model_accepted_core_host : forall c0 xs, (c0 < USIZE)%N -> (N.of_nat (count_starts xs) <= USIZE)%N ->
+  C18_ok xs (weak [] xs (srun (sys0 c0) xs)) = true.
+Proof. intros c0 xs Hc Hn. apply weak_ok. exact (model_ok c0 xs Hc Hn). Qed.
 
 (* an accepted run of several timers: ids handed out are pairwise distinct ... *)
 Theorem C18_unique_ids : forall xs os, C18_ok xs os = true -> NoDup (started_ids xs os).
